@@ -72,7 +72,7 @@ func runC15C(e *Env, r *core.Run) {
 	}
 	r.Ev("cfg tasks=%d requests=%d pk=%s", ntasks, total, core.Hex8(pk))
 	sim := e.Sim
-	sim.Begin(rt.Config{Draw: func(n int) int { return t.Draw(core.SS, n) }, EstYields: total * 200, MaxYields: uint64(total*600000 + 100000)})
+	sim.Begin(e.SimConfig(func(n int) int { return t.Draw(core.SS, n) }, total*200, uint64(total*600000+100000)))
 	logs := make([]*core.Log, ntasks)
 	outs := make([][][]byte, ntasks)
 	for i := range logs {
